@@ -309,7 +309,8 @@ func (m *BaseUndoLogManager) Undo(ctx context.Context, dbType types.DBType, xid 
 		exists = true
 		if !record.CanUndo() {
 			log.Infof("xid %v branch %v, ignore %v undo_log", record.XID, record.BranchID, record.LogStatus)
-			return nil
+			// nothing was changed: end the transaction so the row lock and the connection are released
+			return tx.Rollback()
 		}
 
 		var logCtx map[string]string
@@ -333,7 +334,8 @@ func (m *BaseUndoLogManager) Undo(ctx context.Context, dbType types.DBType, xid 
 
 		sqlUndoLogs := branchUndoLog.Logs
 		if len(sqlUndoLogs) == 0 {
-			return nil
+			// nothing to replay: fall through to the undo log delete and the commit
+			continue
 		}
 		branchUndoLog.Reverse()
 
